@@ -89,12 +89,27 @@ def discharge(obligations, rounds=None, jobs=None, seed=0, both=False, progress=
         return k, be, res, dt
 
     with ThreadPoolExecutor(max_workers=jobs) as pool:
-        # canaries: one back end, short budget, expected not to be unsat
-        can = [k for k in pending if obligations[k].kind == "CANARY"]
-        for k, be, res, dt in pool.map(lambda k: attempt(k, ORDER[0], canary_timeout, 0), can):
+        # canaries (vacuity guard): per (function, outcome) the exit paths are tried one after the other until one
+        # is found whose path condition is not refutable within the budget; the rest is skipped
+        groups = {}
+        for k in pending:
             ob = obligations[k]
-            ob.result, ob.backend, ob.time = res, be, round(dt, 3)
-            ob.all_results.append((be, res, round(dt, 3)))
+            if ob.kind == "CANARY":
+                g = (ob.name.split("/CANARY:")[0], ob.name.split("/CANARY:")[1].split("/")[0])
+                groups.setdefault(g, []).append(k)
+
+        def run_group(ks):
+            for k in ks:
+                _, be, res, dt = attempt(k, ORDER[0], canary_timeout, 0)
+                ob = obligations[k]
+                ob.result, ob.backend, ob.time = res, be, round(dt, 3)
+                ob.all_results.append((be, res, round(dt, 3)))
+                if res != "unsat":
+                    break
+            for k in ks:
+                if obligations[k].result is None:
+                    obligations[k].result, obligations[k].backend = "skipped", None
+        list(pool.map(run_group, groups.values()))
         pending = [k for k in pending if obligations[k].kind != "CANARY"]
         for rno, (be, t, sd) in enumerate(rounds):
             if not pending:
